@@ -4,7 +4,7 @@ import re, z3
 
 TOK = re.compile(r"""
   (?P<ws>\s+|//[^\n]*|/\*.*?\*/|\(\*\s*[A-Za-z].*?\*\)) |
-  (?P<num>\d+'s?d\d+) | (?P<int>\d+) | (?P<str>"[^"]*") |
+  (?P<num>\d+'s?d\d+) | (?P<rawnum>\d+'s?[hbo][0-9a-fA-FxzXZ_]+) | (?P<int>\d+) | (?P<str>"[^"]*") |
   (?P<id>[A-Za-z_$][A-Za-z0-9_$]*) |
   (?P<op><<<|>>>|<=|>=|==|!=|[~\-+*&|^<>?:()\[\]{},;=@.\#!])
 """, re.X | re.S)
@@ -35,7 +35,7 @@ class P:
     # ---- module ----
     def module(self):
         self.expect("module"); name = self.next()[1]; self.expect("(")
-        m = dict(name=name, nets={}, mems={}, assigns=[], comb=[], sync=[], readmem=[], ports=[])
+        m = dict(name=name, nets={}, mems={}, assigns=[], comb=[], sync=[], readmem=[], ports=[], instances=[])
         while not self.accept(")"):
             d = self.next()[1]; assert d in ("input", "output", "inout"), d
             kind = self.next()[1]; signed, w = self.opt_signed_range()
@@ -71,6 +71,24 @@ class P:
         elif v == "initial":
             self.next(); self.expect("begin"); self.expect("$readmemh"); self.expect("("); f = self.next()[1].strip('"'); self.expect(","); mem = self.next()[1]; self.expect(")"); self.expect(";"); self.expect("end")
             m["readmem"].append((f, mem))
+        elif k == "id" and (self.peek(1)[0] == "id" or self.peek(1)[1] == "#"):
+            # module instance:  OF [#( .P (value), ... )] NAME ( .port (expression), ... );
+            of = self.next()[1]; params = []
+            if self.accept("#"):
+                self.expect("(")
+                while not self.accept(")"):
+                    self.expect("."); pn = self.next()[1]; self.expect("(")
+                    toks = []; depth = 0
+                    while not (depth == 0 and self.peek()[1] == ")"):
+                        t = self.next(); depth += (t[1] == "(") - (t[1] == ")"); toks.append(t)
+                    self.expect(")"); params.append((pn, toks)); self.accept(",")
+            name = self.next()[1]; self.expect("("); ports = []
+            while not self.accept(")"):
+                self.expect("."); pn = self.next()[1]; self.expect("(")
+                e = None if self.peek()[1] == ")" else self.expr()
+                self.expect(")"); ports.append((pn, e)); self.accept(",")
+            self.expect(";")
+            m["instances"].append(dict(of=of, name=name, params=params, ports=ports))
         else:
             raise SyntaxError("unsupported item %r" % (self.peek(),))
     def stmt(self):
